@@ -160,3 +160,20 @@ Definition mismatches_eval (cs : list ecase) : list N :=
 Definition inexact_eval (cs : list ecase) : list N :=
   flat_map (fun c => let '(tf, lf, sq, sc, scf, pts) := eprep c in
                      map pid (filter (fun pt => negb (snd (pcheck tf lf sq sc scf pt))) pts)) cs.
+
+(* ---- the defect of the pinned commit (repaired by "fix: Box2.lineIntersect keeps the end points
+   ... bit-exact"): for the edge of the 10-vertex star (R = 1, r = 0.4) that arrives at the inner
+   vertex (0.3236..., -0.2351141009169893), u + v*1 differs from the vertex in the last bit of y, and
+   at a point level with that vertex the half-open rule counts the clipped piece as a crossing that
+   the edge itself does not make. *)
+Definition star_edge : Seg FOps :=
+  (mkV2 0x1.3c6ef372fe94cp-02%float (-0x1.e6f0e134455p-01)%float,
+   mkV2 0x1.4b5f949465d53p-02%float (-0x1.e183807222a32p-03)%float).
+Definition star_point : V2 FOps := mkV2 (-0x1.9e3779b97f4a8p-01)%float (-0x1.e183807222a32p-03)%float.
+Lemma pinned_clip_refuted :
+  exists (l : Seg FOps) (p : V2 FOps),
+    v2same (@clip_pt_pinned FOps l 1%float) (snd l) = false /\
+    @winding FOps (@new_line_info FOps (fst l, @clip_pt_pinned FOps l 1%float)) p = 1%Z /\
+    @winding FOps (@new_line_info FOps l) p = 0%Z /\
+    v2same (@clip_pt FOps l 1%float) (snd l) = true.
+Proof. exists star_edge, star_point. vm_compute. repeat split. Qed.
